@@ -175,11 +175,111 @@ func C20(c *Ctx) {
 					}
 					if !isErr {
 						okLoop, why = false, "the branch loop is left at "+c.pos(ex[0].Instrs[len(ex[0].Instrs)-1])+" without an error: later branches get no edge"
+						continue
+					}
+					// an error exit only counts if the renderer reports that error: can the error be non-nil, and if so,
+					// does every caller of this function hand it on?
+					var errv ssa.Value
+					for _, f := range flow.EdgeFacts(ex[0], ex[1]) {
+						if bo, ok := f.Cond.(*ssa.BinOp); ok && ssau.IsNilConst(bo.Y) && types.Identical(bo.X.Type(), types.Universe.Lookup("error").Type()) {
+							errv = bo.X
+						}
+					}
+					feasible := false
+					fnsHere := append(ssau.WithAnon(r.top), pkgClosure(r.top)...)
+					for _, d := range deepDefs(errv, fnsHere) {
+						if ssau.IsNilConst(d) {
+							continue
+						}
+						if exx, isEx := d.(*ssa.Extract); isEx {
+							// the result of a local function literal that only ever returns a nil error
+							if cl, isC := exx.Tuple.(*ssa.Call); isC && cl.Common().StaticCallee() == nil && !cl.Common().IsInvoke() {
+								onlyNil, nlit := true, 0
+								for _, cv := range deepDefs(cl.Common().Value, fnsHere) {
+									mc, isMC := cv.(*ssa.MakeClosure)
+									if !isMC {
+										onlyNil = false
+										continue
+									}
+									nlit++
+									lit := mc.Fn.(*ssa.Function)
+									for _, lb := range lit.Blocks {
+										if ret, isRet := lb.Instrs[len(lb.Instrs)-1].(*ssa.Return); isRet && exx.Index < len(ret.Results) {
+											for _, rd := range deepDefs(ret.Results[exx.Index], append([]*ssa.Function{lit}, fnsHere...)) {
+												if !ssau.IsNilConst(rd) {
+													onlyNil = false
+												}
+											}
+										}
+									}
+								}
+								if onlyNil && nlit > 0 {
+									continue
+								}
+							}
+							if cl, isC := exx.Tuple.(*ssa.Call); isC && strings.HasPrefix(ssau.CalleeName(cl), "encoding/json.Marshal") {
+								fromPattern := false
+								for _, a := range deepDefs(cl.Common().Args[0], fnsHere) {
+									if _, is := ssau.LoadOfField(a, prog.Abs("core"), "Branch", "Pattern"); is {
+										fromPattern = true
+									}
+								}
+								if fromPattern {
+									continue // a compiled spec's patterns are canonical JSON values (C13-R1): marshalling them cannot fail
+								}
+							}
+						}
+						feasible = true
+					}
+					if !feasible {
+						continue
+					}
+					lf := ex[0].Parent()
+					propagated := lf == r.top
+					if !propagated {
+						propagated = true
+						n := 0
+						for _, g := range fnsHere {
+							ssau.Instrs(g, func(in ssa.Instruction) {
+								ci, ok := in.(ssa.CallInstruction)
+								if !ok {
+									return
+								}
+								isCall := ci.Common().StaticCallee() == lf
+								for _, d := range deepDefs(ci.Common().Value, fnsHere) {
+									if mc, isMC := d.(*ssa.MakeClosure); isMC && mc.Fn == ssa.Value(lf) {
+										isCall = true
+									}
+								}
+								if !isCall {
+									return
+								}
+								n++
+								cl, isC := in.(*ssa.Call)
+								if !isC {
+									propagated = false
+									return
+								}
+								var ev ssa.Value = cl
+								if tup, isTup := cl.Type().(*types.Tuple); isTup {
+									ev = callResults(cl)[tup.Len()-1]
+								}
+								if ev == nil || !errPropagated(in.Parent(), ev) {
+									propagated = false
+								}
+							})
+						}
+						if n == 0 {
+							propagated = false
+						}
+					}
+					if !propagated {
+						okLoop, why = false, "the branch loop is left at "+c.pos(ex[0].Instrs[len(ex[0].Instrs)-1])+" with an error that the renderer then ignores: the rendering is reported as complete although this branch and the later ones have no edge"
 					}
 				}
 			}
 		}
-		c.R.Check(okLoop, "C20-R2", r.name+": every branch gets its edge", c.pos(edgeCall), "in the loop over Branches.Branches; no bypass; early exit only on error", why)
+		c.R.Check(okLoop, "C20-R2", r.name+": every branch gets its edge", c.pos(edgeCall), "in the loop over Branches.Branches; no bypass; early exit only on an error that can occur and that the renderer reports", why)
 		// R3: node emission
 		var nodeCalls []*ssa.Call
 		var nodeFn *ssa.Function
